@@ -81,6 +81,7 @@ type Term struct {
 	AltScreen bool
 	CX, CY    int
 	wrapNext  bool
+	marginHit bool // autowrap off: the last glyph was written in the last column (the cursor stayed on it)
 	Pen       Pen
 	Q         Quirks
 
@@ -185,6 +186,7 @@ func (t *Term) Resize(w, h int) {
 		t.CY = 0
 	}
 	t.wrapNext = false
+	t.marginHit = false
 }
 
 // Scramble simulates arbitrary previous contents: every cell, the cursor and the pen.
@@ -198,6 +200,7 @@ func (t *Term) Scramble() {
 		t.CX, t.CY = t.W/2, t.H/2
 	}
 	t.wrapNext = false
+	t.marginHit = false
 }
 
 func (t *Term) err(format string, a ...interface{}) {
@@ -322,6 +325,7 @@ func (t *Term) c0(c byte) {
 			t.CX--
 		}
 		t.wrapNext = false
+		t.marginHit = false
 	case 0x09:
 		t.CX = (t.CX/8 + 1) * 8
 		if t.CX >= t.W {
@@ -332,13 +336,14 @@ func (t *Term) c0(c byte) {
 	case 0x0c:
 		if t.Q.FFClears {
 			t.eraseDisplay(2)
-			t.CX, t.CY, t.wrapNext = 0, 0, false
+			t.CX, t.CY, t.wrapNext, t.marginHit = 0, 0, false, false
 		} else {
 			t.lineFeed()
 		}
 	case 0x0d:
 		t.CX = 0
 		t.wrapNext = false
+		t.marginHit = false
 	case 0x0e:
 		t.Shift = 1
 	case 0x0f:
@@ -362,6 +367,7 @@ func (t *Term) lineFeed() {
 		t.CY++
 	}
 	t.wrapNext = false
+	t.marginHit = false
 }
 
 func (t *Term) acsActive() bool {
@@ -388,8 +394,8 @@ func (t *Term) printGlyph(r rune) {
 	if w == 0 {
 		// combining: attaches to the previously printed cell
 		x := t.CX - 1
-		if t.wrapNext {
-			x = t.CX
+		if t.wrapNext || t.marginHit {
+			x = t.CX // the glyph just written is under the cursor, not left of it
 		}
 		if x < 0 || t.W == 0 {
 			t.Ignored["combining character with no base"]++
@@ -412,7 +418,9 @@ func (t *Term) printGlyph(r rune) {
 			t.lineFeed()
 		}
 		t.wrapNext = false
+		t.marginHit = false
 	}
+	t.marginHit = false
 	if w == 2 && t.CX == t.W-1 {
 		if t.Modes[7] {
 			t.CX = 0
@@ -433,12 +441,14 @@ func (t *Term) printGlyph(r rune) {
 	t.CX += w
 	if t.CX >= t.W {
 		t.CX = t.W - 1
+		t.marginHit = !t.Modes[7]
 		if t.Modes[7] {
 			t.wrapNext = true
 			if t.Q.EagerWrap {
 				t.CX = 0
 				t.lineFeed()
 				t.wrapNext = false
+				t.marginHit = false
 			}
 		}
 	}
@@ -478,7 +488,7 @@ func (t *Term) esc(c byte) {
 	case '7':
 		t.SavedCX, t.SavedCY = t.CX, t.CY
 	case '8':
-		t.CX, t.CY, t.wrapNext = t.SavedCX, t.SavedCY, false
+		t.CX, t.CY, t.wrapNext, t.marginHit = t.SavedCX, t.SavedCY, false, false
 	case '=':
 		t.KeypadApp = true
 	case '>':
@@ -606,18 +616,23 @@ func (t *Term) dispatchCSI(final byte) {
 			t.CX = 0
 		}
 		t.wrapNext = false
+		t.marginHit = false
 	case prefix == 0 && inter == "" && final == 'A':
 		t.CY = max(0, t.CY-max(1, first(ps, 0, 1)))
 		t.wrapNext = false
+		t.marginHit = false
 	case prefix == 0 && inter == "" && final == 'B':
 		t.CY = min(t.H-1, t.CY+max(1, first(ps, 0, 1)))
 		t.wrapNext = false
+		t.marginHit = false
 	case prefix == 0 && inter == "" && final == 'C':
 		t.CX = min(t.W-1, t.CX+max(1, first(ps, 0, 1)))
 		t.wrapNext = false
+		t.marginHit = false
 	case prefix == 0 && inter == "" && final == 'D':
 		t.CX = max(0, t.CX-max(1, first(ps, 0, 1)))
 		t.wrapNext = false
+		t.marginHit = false
 	case prefix == 0 && inter == "" && final == 'J':
 		t.eraseDisplay(first(ps, 0, 0))
 	case prefix == 0 && inter == "" && final == 'K':
@@ -702,7 +717,7 @@ func (t *Term) setPrivate(n int, on bool) {
 		} else if !on && t.AltScreen {
 			t.AltScreen = false
 			if n == 1049 {
-				t.CX, t.CY, t.wrapNext = t.SavedCX, t.SavedCY, false
+				t.CX, t.CY, t.wrapNext, t.marginHit = t.SavedCX, t.SavedCY, false, false
 			}
 		}
 		t.Modes[n] = on
@@ -732,6 +747,7 @@ func (t *Term) eraseDisplay(mode int) {
 		}
 	}
 	t.wrapNext = false
+	t.marginHit = false
 }
 
 func (t *Term) eraseLine(mode int) {
@@ -745,6 +761,7 @@ func (t *Term) eraseLine(mode int) {
 		}
 	}
 	t.wrapNext = false
+	t.marginHit = false
 }
 
 func (t *Term) insertChars(n int) {
@@ -768,6 +785,7 @@ func (t *Term) insertChars(n int) {
 		t.eraseCell(t.W-1, y)
 	}
 	t.wrapNext = false
+	t.marginHit = false
 }
 
 func (t *Term) sgr(ps [][]int) {
